@@ -20,6 +20,19 @@ CHECKS = {
     ),
 }
 
+CHECKS["C14"] = (
+    "model-based testing: generated from_ranges/addition trees against a per-minute last-writer-wins model",
+    "Generated trees of additions over from_ranges leaves (overlapping, nested, adjacent, empty, inverted ranges; three kinds), left- and right-nested, are compared after every step with a per-minute model: stored ranges disjoint/increasing/non-empty, painted minutes, is_empty, and the gap-free differing-neighbour tiling produced by iteration.",
+    "Trusted: hook H2 exposes the stored ranges; the per-minute model is the specification. Sampled, not exhaustive; ranges lie on a mixed hour/quarter/minute grid.",
+    "DESIGN.md section 3, C14",
+)
+CHECKS["C15"] = (
+    "stateful model-based testing against BTreeSet + exhaustive small-scope enumeration for CompactMonth",
+    "Generated operation histories (insert, contains, first_after, iter/count, equality under permutation and against a strict subset, serialize/deserialize, concatenated streams with byte accounting) are compared step by step with a BTreeSet model for CompactCalendar and CompactYear; CompactMonth is enumerated exhaustively for all day sets of size <= 3 and >= 28 x all 31 queries.",
+    "Trusted: BTreeSet and chrono date ordering. Year distances bounded to a few thousand years per history.",
+    "DESIGN.md section 3, C15",
+)
+
 NOT_YET = {}
 
 def main():
